@@ -157,6 +157,115 @@ theorem parsePipelines_names {funcs : List FnSrc} : ∀ {ps : List PipeSrc} {ear
             exact hne (hab ▸ ha)
           · right; exact he
 
+/-! ## a file in source order: functions (attributes given once) and pipelines -/
+
+/-- `parse_function_attributes` accepts a list of `numthreads` attributes only when it adds at most one to the
+    ones already accepted, and then returns all of them unchanged -/
+theorem parseFunctionAttributes_ok : ∀ {attrs acc out : List (Nat × Nat × Nat)},
+    parseFunctionAttributes acc attrs = .ok out → out = acc ++ attrs ∧ (attrs = [] ∨ (acc = [] ∧ attrs.length = 1)) := by
+  intro attrs
+  induction attrs with
+  | nil => intro acc out h; simp [parseFunctionAttributes] at h; subst h; simp
+  | cons a r ih =>
+    intro acc out h
+    unfold parseFunctionAttributes at h
+    split at h
+    · cases h
+    · rename_i hacc
+      have hacc' : acc = [] := by cases acc <;> simp_all
+      subst hacc'
+      obtain ⟨ho, hr⟩ := ih h
+      rcases hr with hr | ⟨hr, _⟩
+      · subst hr; exact ⟨by simpa using ho, Or.inr ⟨rfl, rfl⟩⟩
+      · simp at hr
+
+/-- a function the front end accepts carries at most one `numthreads` attribute -/
+theorem parseFunctionAttributes_length {attrs out : List (Nat × Nat × Nat)}
+    (h : parseFunctionAttributes [] attrs = .ok out) : out = attrs ∧ attrs.length ≤ 1 := by
+  obtain ⟨ho, hr⟩ := parseFunctionAttributes_ok h
+  refine ⟨by simpa using ho, ?_⟩
+  rcases hr with hr | ⟨_, hr⟩
+  · simp [hr]
+  · omega
+
+/-- and conversely: at most one attribute is accepted -/
+theorem parseFunctionAttributes_of_length {attrs : List (Nat × Nat × Nat)} (h : attrs.length ≤ 1) :
+    parseFunctionAttributes [] attrs = .ok attrs := by
+  match attrs, h with
+  | [], _ => rfl
+  | [a], _ => rfl
+  | _ :: _ :: _, h => simp at h
+
+/-- an accepted file: its `Pipeline` blocks are accepted in order (with the earlier names), and every function it
+    declares or defines carries at most one `numthreads` attribute -/
+theorem parseFile_ok {funcs : List FnSrc} : ∀ {items : List Item} {earlier : List String} {ds : List PipeDef},
+    parseFile funcs earlier items = .ok ds →
+    parsePipelines funcs earlier (itemPipes items) = .ok ds ∧ ∀ f ∈ itemFns items, f.attrs.length ≤ 1 := by
+  intro items
+  induction items with
+  | nil => intro earlier ds h; simp [parseFile] at h; subst h; simp [itemPipes, itemFns, parsePipelines]
+  | cons it r ih =>
+    intro earlier ds h
+    cases it with
+    | fn f =>
+      unfold parseFile at h
+      split at h
+      · cases h
+      · rename_i out hout
+        obtain ⟨h1, h2⟩ := ih h
+        refine ⟨by simpa [itemPipes] using h1, ?_⟩
+        intro g hg
+        simp only [itemFns, List.mem_cons] at hg
+        rcases hg with rfl | hg
+        · exact (parseFunctionAttributes_length hout).2
+        · exact h2 g hg
+    | pipe p =>
+      unfold parseFile at h
+      split at h
+      · cases h
+      · rename_i d hd
+        split at h
+        · cases h
+        · rename_i rest hrest
+          simp only [Except.ok.injEq] at h
+          subst h
+          obtain ⟨h1, h2⟩ := ih hrest
+          refine ⟨by simp [itemPipes, parsePipelines, hd, h1], ?_⟩
+          intro g hg
+          simp only [itemFns] at hg
+          exact h2 g hg
+
+/-- every pipeline definition of an accepted file comes from one of its blocks, parsed against the names before it -/
+theorem parsePipelines_mem {funcs : List FnSrc} : ∀ {ps : List PipeSrc} {earlier : List String} {ds : List PipeDef},
+    parsePipelines funcs earlier ps = .ok ds →
+    ∀ d ∈ ds, ∃ p ∈ ps, ∃ e, parsePipeline funcs e p = .ok d := by
+  intro ps
+  induction ps with
+  | nil => intro earlier ds h d hd; simp [parsePipelines] at h; subst h; cases hd
+  | cons p r ih =>
+    intro earlier ds h d hd
+    unfold parsePipelines at h
+    split at h
+    · cases h
+    · rename_i d0 hd0
+      split at h
+      · cases h
+      · rename_i rest hrest
+        simp only [Except.ok.injEq] at h
+        subst h
+        rcases List.mem_cons.1 hd with rfl | hd'
+        · exact ⟨p, List.mem_cons_self .., earlier, hd0⟩
+        · obtain ⟨q, hq, e, he⟩ := ih hrest d hd'
+          exact ⟨q, List.mem_cons_of_mem _ hq, e, he⟩
+
+/-- with at most one attribute the last one is the only one -/
+theorem lastNumThreads_of_length {attrs : List (Nat × Nat × Nat)} (h : attrs.length ≤ 1) :
+    attrs = (lastNumThreads attrs).toList := by
+  match attrs, h with
+  | [], _ => rfl
+  | [a], _ => rfl
+  | _ :: _ :: _, h => simp at h
+
 /-! ## reading the name map -/
 
 theorem lookup_mem {names : List Names.Named} {s : Names.Sym} {a : Names.Named}
